@@ -423,39 +423,6 @@ def containerKeys (g : Graph) (v : Nat) : List Nat := (g.node v).keys.filter fun
 def eqKeyDepth (c : Cfg) (g : Graph) (fuel v : Nat) : Nat :=
   recDepth (containerKeys g) (fun _ => !c.eqKeysIterative) fuel v
 
-/-! ## Operations and their cost -/
-
-inductive Op
-  | eq | hash | collect | print | mark | drop | send
-  deriving DecidableEq, Repr
-
-/-- How an operation walks a value kind. -/
-inductive Trav
-  | iterative                    -- worklist: constant native depth
-  | recBounded (limit : Nat)     -- native recursion below an explicit depth limit
-  | recUnbounded                 -- native recursion as deep as the value
-  deriving DecidableEq, Repr
-
-/-- Abstract native frames used by `op` on value `v` of graph `g` (recursion cut off after `fuel` levels).
-    Worklist algorithms run in one frame; sending a value to another thread moves one reference. -/
-def nativeDepth (c : Cfg) (op : Op) (g : Graph) (fuel v : Nat) : Nat :=
-  match op with
-  | .eq => eqKeyDepth c g fuel v
-  | .hash => hashDepth c g fuel v
-  | .collect => 1
-  | .print => 1 + printDepth c g fuel 0 v
-  | .mark => 1
-  | .drop => dropDepth c g fuel v
-  | .send => 1
-
-/-- is the operation a worklist for every value kind under configuration `c`? -/
-def Op.iterativeIn (c : Cfg) : Op → Bool
-  | .eq => c.eqKeysIterative
-  | .hash => c.hashIterative
-  | .collect | .mark | .send => true
-  | .print => false               -- recursion below the depth limit
-  | .drop => c.dropPairSetIterative && c.dropClosureBoxIterative
-
 /-! ## Shapes -/
 
 /-- a chain of `n` nodes of kind `k` above a leaf: node 0 is the leaf, node `i+1` has the single child `i` -/
@@ -479,5 +446,266 @@ def twoRings (k : Kind) (n : Nat) : Graph :=
 /-- the doubling dag: node 0 a leaf, node `i+1` a list holding node `i` twice -/
 def dag (n : Nat) : Graph :=
   Array.ofFn (n := n + 1) fun i => if i.val = 0 then { kind := .leaf } else { kind := .list, kids := [i.val - 1, i.val - 1] }
+
+/-! ## The worklist visitor as a machine with an explicit native call stack
+
+`BreadthFirstSearchSteelValVisitor::visit` is a `while let Some(value) = self.pop_front()` loop that calls
+`self.visit_<kind>(value)`; that method either iterates over the children and calls `self.push_back(child)` for each
+(the untracked kinds), or calls a helper (`mark_heap_reference` / `mark_heap_vector` in the marker, `add` in the
+cycle collector) that tests and sets the visited mark and pushes the children.  The machine below has one frame per
+ACTIVE CALL — the native stack — and the queue and the visited marks as heap state; one step is one call, one return,
+or one queue operation.  `sons v` is the order in which the children are pushed. -/
+
+inductive Frame
+  /-- `visit`: the loop -/
+  | visit
+  /-- `visit_<kind>(v)`; `none`: just entered, `some cs`: in its `for` loop with `cs` still to push (or, for a tracked
+      kind, waiting for the helper with nothing to push itself) -/
+  | kind (v : Nat) (todo : Option (List Nat))
+  /-- `mark_heap_reference(v)` / `add(v)`; `none`: just entered (reads the mark), `some cs`: pushing -/
+  | helper (v : Nat) (todo : Option (List Nat))
+  /-- `push_back(c)` -/
+  | push (c : Nat)
+  deriving DecidableEq, Repr
+
+structure MSt where
+  stack : List Frame      -- native call stack, innermost frame first
+  queue : List Nat        -- the `Vec` / `VecDeque` of the visitor (heap)
+  vis : List Nat          -- `reachable` bits / `visited` set (heap)
+  found : Bool := false   -- `found_mutable` of the cycle collector (the marker never sets it)
+  deriving Repr
+
+/-- `sons v`: the children `visit_<kind>(v)` pushes, in that order; `setsFound v`: the method sets `found_mutable`;
+    `tracked found v`: the method goes through the helper that tests and sets the visited mark. -/
+def mStep (sons : Nat → List Nat) (setsFound : Nat → Bool) (tracked : Bool → Nat → Bool) (s : MSt) : Step MSt (List Nat) :=
+  match s.stack with
+  | [] => .done s.vis                                                        -- `visit` has returned
+  | .visit :: rest =>
+    match s.queue with
+    | [] => .next { s with stack := rest }                                   -- queue empty: return
+    | v :: q => .next { s with stack := .kind v none :: .visit :: rest, queue := q }     -- pop, call `visit_<kind>`
+  | .kind v none :: rest =>
+    let found := s.found || setsFound v
+    if tracked found v then .next { s with stack := .helper v none :: .kind v (some []) :: rest, found := found }   -- call the helper
+    else .next { s with stack := .kind v (some (sons v)) :: rest, found := found }
+  | .kind _ (some []) :: rest => .next { s with stack := rest }              -- return
+  | .kind v (some (c :: cs)) :: rest => .next { s with stack := .push c :: .kind v (some cs) :: rest }
+  | .helper v none :: rest =>
+    if s.vis.contains v then .next { s with stack := rest }                  -- already marked: return
+    else .next { s with stack := .helper v (some (sons v)) :: rest, vis := v :: s.vis }
+  | .helper _ (some []) :: rest => .next { s with stack := rest }
+  | .helper v (some (c :: cs)) :: rest => .next { s with stack := .push c :: .helper v (some cs) :: rest }
+  | .push c :: rest => .next { s with stack := rest, queue := c :: s.queue } -- the push itself, return
+
+/-- `n` steps of a loop body; `none` if the loop finished earlier -/
+def runN {σ ρ : Type} (step : σ → Step σ ρ) : Nat → σ → Option σ
+  | 0, s => some s
+  | n + 1, s =>
+    match step s with
+    | .next s' => runN step n s'
+    | .done _ => none
+
+/-- the state in which `visit` is called: one frame, the roots in the queue -/
+def mInit (roots : List Nat) : MSt := { stack := [.visit], queue := roots, vis := [] }
+
+/-- deepest native stack and longest queue seen while running the machine for at most `fuel` steps, and the result -/
+def mProfile (sons : Nat → List Nat) (setsFound : Nat → Bool) (tracked : Bool → Nat → Bool) :
+    Nat → MSt → Nat → Nat → Nat × Nat × Option (List Nat)
+  | 0, s, d, q => (max d s.stack.length, max q s.queue.length, none)
+  | f + 1, s, d, q =>
+    match mStep sons setsFound tracked s with
+    | .done r => (max d s.stack.length, max q s.queue.length, some r)
+    | .next s' => mProfile sons setsFound tracked f s' (max d s.stack.length) (max q s.queue.length)
+
+/-- the marker as a machine -/
+def markMachine (c : Cfg) (g : Graph) : MSt → Step MSt (List Nat) :=
+  mStep g.sons (fun _ => false) (fun _ v => markTracked c g v)
+
+/-- the cycle collector as a machine: kinds it does not expand have empty methods -/
+def ccSons (g : Graph) (v : Nat) : List Nat := if ccExpands (g.kind v) then g.sons v else []
+def ccMachine (c : Cfg) (g : Graph) : MSt → Step MSt (List Nat) :=
+  mStep (ccSons g) (fun v => ccSetsFound c (g.kind v)) (fun found v => ccExpands (g.kind v) && (found || c.ccTracksAlways))
+
+/-- native frames of the worklist visitors: `visit`, `visit_<kind>`, the helper, `push_back` -/
+def wlFrames : Nat := 4
+
+/-- number of edges of the graph -/
+def Graph.edges (g : Graph) : Nat := ((List.range g.size).map fun v => (g.sons v).length).sum
+
+/-! ## Sweep, and what the reference counts do with cycles
+
+After the mark phase a heap slot is free iff its `reachable` bit is off (`FreeList::collect_on_condition`,
+`mark_all_unreachable`; the number of free slots is `len − reached`): one pass over the slot array. -/
+
+structure SweepSt where
+  todo : List Nat
+  free : List Nat
+  deriving Repr
+
+def sweepStep (marked : List Nat) (s : SweepSt) : Step SweepSt (List Nat) :=
+  match s.todo with
+  | [] => .done s.free
+  | v :: rest => .next { todo := rest, free := if marked.contains v then s.free else v :: s.free }
+
+/-- the heap slots of a graph: boxes and mutable vectors -/
+def slots (g : Graph) : List Nat := (List.range g.size).filter fun v => g.kind v == .box || g.kind v == .mvec
+
+/-- a full collection: mark from the roots, then sweep the slot array; the result is the list of freed slots -/
+def collectRun (c : Cfg) (g : Graph) (fuel : Nat) (roots : List Nat) : Option (List Nat) :=
+  (markRun c g fuel roots).bind fun m => iter (sweepStep m) fuel { todo := slots g, free := [] }
+
+/-! ## `serialize-value` — `into_serializable_value` (native recursion; heap slots are remembered in `ctx.visited`) -/
+
+/-- kinds on which `into_serializable_value` calls itself for the children (a strong box is refused with an error) -/
+def serRecurses : Kind → Bool
+  | .leaf | .sbox => false
+  | _ => true
+
+/-- fold over the children, threading the visited set, taking the deepest child -/
+def foldSer (go : List Nat → Nat → Nat × List Nat) : List Nat → List Nat → Nat × List Nat
+  | vis, [] => (0, vis)
+  | vis, c :: cs =>
+    let r1 := go vis c
+    let r2 := foldSer go r1.2 cs
+    (max r1.1 r2.1, r2.2)
+
+/-- (native frames, visited slots) of serialising node `v`, recursion cut off after `fuel` levels -/
+def serGo (g : Graph) : Nat → List Nat → Nat → Nat × List Nat
+  | 0, vis, _ => (0, vis)
+  | f + 1, vis, v =>
+    if !serRecurses (g.kind v) then (1, vis)
+    else if g.kind v == .box || g.kind v == .mvec then
+      if vis.contains v then (1, vis)                       -- `ctx.visited.contains(..)`: a reference, no descent
+      else
+        let r := foldSer (serGo g f) (v :: vis) (g.sons v)
+        (1 + r.1, r.2)
+    else
+      let r := foldSer (serGo g f) vis (g.sons v)
+      (1 + r.1, r.2)
+
+def serDepth (g : Graph) (fuel v : Nat) : Nat := (serGo g fuel [] v).1
+
+/-! ## Printing, second phase — `CycleDetector::start_format` / `format_with_cycles` with the cycle table
+
+The first phase hands over `labels` (the nodes met again while recording, in the order they were found).  The
+second phase prints `#i=` + the labelled value (`TopLevel`) for every label, then the value itself; inside, a labelled
+node is written `#i#` and not entered; below depth `printLimit` it writes `...`. -/
+
+inductive PTok
+  | atom (v : Nat)       -- a leaf, a closure, a stream: constant text
+  | open (v : Nat)       -- `(`, `#(`, `'#&`, `(name` …
+  | close
+  | ref (i : Nat)        -- `#i#`
+  | dots                 -- `...`
+  deriving DecidableEq, Repr
+
+/-- all children formatted, in order; `none` as soon as one of them runs out of native stack -/
+def fmtList (go : Nat → Option (List PTok)) : List Nat → Option (List PTok)
+  | [] => some []
+  | c :: cs =>
+    match go c, fmtList go cs with
+    | some a, some b => some (a ++ b)
+    | _, _ => none
+
+/-- `format_with_cycles(v)` with `fuel` native frames available, depth counter `ctr`; `top`: `FormatType::TopLevel` -/
+def fmtOut (c : Cfg) (g : Graph) (labels : List Nat) : Nat → Nat → Bool → Nat → Option (List PTok)
+  | 0, _, _, _ => none
+  | f + 1, ctr, top, v =>
+    if ctr ≥ printLimit then some [.dots]
+    else
+      match g.kind v with
+      | .leaf | .closure | .stream => some [.atom v]
+      | k =>
+        if !top && labels.contains v then some [.ref (labels.idxOf v)]
+        else
+          match fmtList (fmtOut c g labels f (if printReenters c k then 0 else ctr + 1) false) (g.sons v) with
+          | some body => some (.open v :: body ++ [.close])
+          | none => none
+
+/-- `start_format`: one header per label, then the value (unless it is itself a labelled value) -/
+def fmtAll (c : Cfg) (g : Graph) (labels : List Nat) (fuel root : Nat) : Option (List PTok) :=
+  match fmtList (fun l => fmtOut c g labels fuel 0 true l) labels with
+  | none => none
+  | some hs =>
+    if labels.contains root then some hs
+    else (fmtOut c g labels fuel 0 false root).map fun r => hs ++ r
+
+/-! ## The prelude's printer (`scheme/print.scm`) on cyclic values
+
+`display` walks the value in Scheme — no depth limit — and stops at a node for which the cycle collector handed out
+a label.  The labels are the expanded nodes met *again while recording* (`CycleCollector::add`), and recording
+starts at the first mutable object.  The printer never sees the slot of a mutable struct field (the accessor unboxes
+it), so a label on such a slot stops nothing. -/
+
+/-- the labels: run the cycle collector and remember the nodes found in `visited` -/
+def ccLabels (c : Cfg) (g : Graph) : Nat → CcSt → List Nat → List Nat
+  | 0, _, labels => labels
+  | f + 1, s, labels =>
+    match s.work with
+    | [] => labels
+    | v :: _ =>
+      let hit := ccExpands (g.kind v) && (s.found || ccSetsFound c (g.kind v) || c.ccTracksAlways) && s.vis.contains v
+      match ccStep c g s with
+      | .done _ => labels
+      | .next s' => ccLabels c g f s' (if hit && !labels.contains v then v :: labels else labels)
+
+/-- where the printer goes from a node it has entered -/
+def printerSons (g : Graph) (v : Nat) : List Nat :=
+  match g.kind v with
+  | .list | .pair | .vec | .mvec | .map | .set => g.sons v
+  | .struct => (g.sons v).map fun j => if g.kind j == .box then (g.sons j).headD j else j   -- fields arrive unboxed
+  | _ => []            -- boxes are handed to `Display for SteelVal`, closures / streams / leaves print a constant
+
+/-- recursion depth of the printer from `v` (cut off after `fuel` levels): it does not enter a labelled node -/
+def preludeDepth (g : Graph) (labels : List Nat) : Nat → Bool → Nat → Nat
+  | 0, _, _ => 0
+  | f + 1, top, v =>
+    if !top && labels.contains v then 1
+    else 1 + maxL ((printerSons g v).map (preludeDepth g labels f false))
+
+/-- Guard: from every node the printer only goes to labelled nodes or to nodes of smaller index -/
+def labelsCutB (g : Graph) (labels : List Nat) : Bool :=
+  (List.range g.size).all fun v => (printerSons g v).all fun j => labels.contains j || decide (j < v)
+
+/-- a mutable struct whose field holds the struct itself: node 0 the struct, node 1 the slot of its field (K18k) -/
+def selfStruct : Graph := #[{ kind := .struct, tag := 2, kids := [1] }, { kind := .box, kids := [0] }]
+
+/-! ## Operations and their cost -/
+
+inductive Op
+  | eq | hash | collect | print | mark | drop | send | serialize
+  deriving DecidableEq, Repr
+
+/-- How an operation walks a value kind. -/
+inductive Trav
+  | iterative                    -- worklist: constant native depth
+  | recBounded (limit : Nat)     -- native recursion below an explicit depth limit
+  | recUnbounded                 -- native recursion as deep as the value
+  deriving DecidableEq, Repr
+
+/-- Abstract native frames used by `op` on value `v` of graph `g` (recursion / machine steps cut off after `fuel`).
+    For the marker and the cycle collector: the deepest native stack the visitor machine reaches; sending a value to
+    another thread moves one reference (`as_rooted`), nothing is walked. -/
+def nativeDepth (c : Cfg) (op : Op) (g : Graph) (fuel v : Nat) : Nat :=
+  match op with
+  | .eq => eqKeyDepth c g fuel v
+  | .hash => hashDepth c g fuel v
+  | .collect =>
+    (mProfile (ccSons g) (fun v => ccSetsFound c (g.kind v)) (fun found v => ccExpands (g.kind v) && (found || c.ccTracksAlways))
+      fuel (mInit [v]) 0 0).1
+  | .print => 1 + printDepth c g fuel 0 v
+  | .mark => (mProfile g.sons (fun _ => false) (fun _ v => markTracked c g v) fuel (mInit [v]) 0 0).1
+  | .drop => dropDepth c g fuel v
+  | .send => 1
+  | .serialize => serDepth g fuel v
+
+/-- is the operation a worklist for every value kind under configuration `c`? -/
+def Op.iterativeIn (c : Cfg) : Op → Bool
+  | .eq => c.eqKeysIterative
+  | .hash => c.hashIterative
+  | .collect | .mark | .send => true
+  | .print => false               -- recursion below the depth limit
+  | .drop => c.dropPairSetIterative && c.dropClosureBoxIterative
+  | .serialize => false           -- `into_serializable_value` calls itself
 
 end SteelVerif.C18
